@@ -1745,16 +1745,18 @@ func (s *BgpServer) handleFSMMessage(peer *peer, e *fsmMsg) {
 				dropFamilies = peer.configuredRFlist()
 			}
 
-			// Always clear EndOfRibReceived state on PeerDown
+			// Always clear EndOfRibReceived state on PeerDown.
+			// (A fresh copy in a variable of its own: the one above may have been
+			// published by Update and is read by other goroutines through ReadOnly.)
 			peer.fsm.lock.Lock()
-			conf = peer.fsm.pConf.ReadCopy()
-			for i, af := range conf.AfiSafis {
+			downConf := peer.fsm.pConf.ReadCopy()
+			for i, af := range downConf.AfiSafis {
 				if slices.Contains(gracefulFamilies, af.State.Family) {
-					conf.AfiSafis[i].MpGracefulRestart.State.Running = true
+					downConf.AfiSafis[i].MpGracefulRestart.State.Running = true
 				}
-				conf.AfiSafis[i].MpGracefulRestart.State.EndOfRibReceived = false
+				downConf.AfiSafis[i].MpGracefulRestart.State.EndOfRibReceived = false
 			}
-			peer.fsm.pConf.Update(&conf)
+			peer.fsm.pConf.Update(&downConf)
 			peer.prefixLimitWarned = make(map[bgp.Family]bool)
 			peer.fsm.lock.Unlock()
 
@@ -1764,11 +1766,11 @@ func (s *BgpServer) handleFSMMessage(peer *peer, e *fsmMsg) {
 			s.resetAdvertisedRoutes(peer)
 			s.dropAdjRIBIn(peer, dropFamilies)
 
-			if conf.Config.PeerAs == 0 {
+			if downConf.Config.PeerAs == 0 {
 				peer.fsm.lock.Lock()
-				conf = peer.fsm.pConf.ReadCopy()
-				conf.State.PeerAs = 0
-				peer.fsm.pConf.Update(&conf)
+				c := peer.fsm.pConf.ReadCopy()
+				c.State.PeerAs = 0
+				peer.fsm.pConf.Update(&c)
 				peer.fsm.lock.Unlock()
 			}
 
